@@ -162,6 +162,55 @@ def describe_timers(timers):
     return sorted(out)
 
 
+# ------------------------------------------------------- size() invariant hook
+
+class SizeMonitor:
+    """Invariant at a hook (DESIGN.md §C03 O(1)): every encoder handed out by the
+    public registry.get_encoder() is wrapped so that each encode() checks
+    len(encode(h, m)) == size(m) == h.message_length.  Active in all workloads."""
+
+    def __init__(self):
+        self.violations = []
+        self.checked = 0
+
+    class _Proxy:
+        def __init__(self, inner, mon, gen):
+            self._inner, self._mon, self._gen = inner, mon, gen
+
+        def size(self, message):
+            return self._inner.size(message)
+
+        def encode(self, header, message):
+            out = self._inner.encode(header, message)
+            mon = self._mon
+            mon.checked += 1
+            n = self._inner.size(message)
+            if len(out) != n or getattr(header, "message_length", n) != len(out):
+                if len(mon.violations) < 50:
+                    mon.violations.append({"gen": self._gen, "message": repr(message)[:300],
+                                           "size": n, "encoded": len(out),
+                                           "header_length": getattr(header, "message_length",
+                                                                    None)})
+            return out
+
+        def __getattr__(self, name):
+            return getattr(self._inner, name)
+
+    def install(self):
+        for gen in (4, 5):
+            reg = registry(gen)
+            orig = reg.get_encoder
+
+            def get_encoder(message_id, _orig=orig, _gen=gen):
+                return SizeMonitor._Proxy(_orig(message_id), self, _gen)
+
+            reg.get_encoder = get_encoder
+
+
+SIZE = SizeMonitor()
+SIZE.install()
+
+
 # ------------------------------------------------------------ getter snapshot
 
 def _safe(fn):
@@ -282,3 +331,16 @@ def enable_sanitizers(log):
 def collect():
     gc.collect()
     gc.collect()
+
+
+def cap(violations, per_mechanism=2, total=12):
+    """Keep a few witnesses per mechanism (so one noisy mechanism does not hide
+    the others)."""
+    seen = {}
+    out = []
+    for v in violations:
+        n = seen.get(v["mechanism"], 0)
+        if n < per_mechanism and len(out) < total:
+            out.append(v)
+        seen[v["mechanism"]] = n + 1
+    return out
